@@ -13,6 +13,7 @@ package c11
 import (
 	"bytes"
 	"fmt"
+	"net"
 	"os"
 	"path/filepath"
 	"regexp"
@@ -170,6 +171,7 @@ type program struct {
 	Procs    int    `json:"gomaxprocs"`
 	Workers  [][]op `json:"workers"`
 	PeerBusy bool   `json:"peer_busy"`
+	Silent   bool   `json:"silent_peer"` // a raw connection that never speaks stays connected throughout
 	RSeed    string `json:"rseed"`
 }
 
@@ -242,6 +244,7 @@ func genProgram(t *rapid.T) program {
 	pr.Tr = rapid.SampledFrom([]string{"inproc", "inproc", "tcp", "ipc", "tls+tcp", "ws"}).Draw(t, "transport")
 	pr.Procs = rapid.SampledFrom([]int{2, 4, 16}).Draw(t, "procs")
 	pr.PeerBusy = rapid.Bool().Draw(t, "peerBusy")
+	pr.Silent = pr.Tr != "inproc" && rapid.IntRange(0, 3).Draw(t, "silentPeer") == 0
 	opts := optionsFor(p.Name)
 	nw := rapid.IntRange(2, 6).Draw(t, "workers")
 	closer := rapid.IntRange(-1, nw-1).Draw(t, "closer") // which worker closes the socket (-1: nobody)
@@ -322,8 +325,13 @@ func runProgram(pr program) (res result, hung bool, stacks string, herr error) {
 	defer runtime.GOMAXPROCS(old)
 	p := fixture.ByName(pr.Ctor)
 	S, P := fixture.New(p.Name), fixture.New(p.PeerName)
-	defer S.Close()
-	defer P.Close()
+	closeBoth := true // on the early (harness error) returns; the normal path closes under a watchdog
+	defer func() {
+		if closeBoth {
+			_ = S.Close()
+			_ = P.Close()
+		}
+	}()
 	for _, s := range []mangos.Socket{S, P} {
 		_ = s.SetOption(mangos.OptionRecvDeadline, 3*time.Millisecond)
 		_ = s.SetOption(mangos.OptionSendDeadline, 3*time.Millisecond)
@@ -346,6 +354,19 @@ func runProgram(pr program) (res result, hung bool, stacks string, herr error) {
 	}
 	if !ev.WaitAttached(1, 5*time.Second) {
 		return res, false, "", fmt.Errorf("attach timeout")
+	}
+	if pr.Silent {
+		// somebody connects and never says a word: its handshake stays pending while
+		// everything else goes on, and must not get in anybody's way
+		network, a := "tcp", addr[strings.Index(addr, "://")+3:]
+		if pr.Tr == "ipc" {
+			network = "unix"
+		} else if i := strings.Index(a, "/"); i >= 0 {
+			a = a[:i]
+		}
+		if c, err := net.DialTimeout(network, a, 2*time.Second); err == nil {
+			defer c.Close()
+		}
 	}
 	// two more listening addresses on the in-process transport: concurrent dialers to different
 	// addresses share that transport's global state
@@ -610,14 +631,24 @@ func runProgram(pr program) (res result, hung bool, stacks string, herr error) {
 		stacks = stats.Stacks()
 	}
 	close(stop)
-	_ = S.Close()
-	_ = P.Close()
-	mu.Lock()
-	for _, e := range eps {
-		_ = e.Close()
+	closeBoth = false
+	cleanup := func() {
+		_ = S.Close()
+		_ = P.Close()
+		mu.Lock()
+		for _, e := range eps {
+			_ = e.Close()
+		}
+		mu.Unlock()
 	}
-	mu.Unlock()
-	if !hung {
+	if hung {
+		// a dead-locked socket may never close: do not let it wedge the report
+		go cleanup()
+	} else if !fixture.Within(20*time.Second, cleanup) {
+		// every worker returned, but Close itself never does
+		hung = true
+		stacks = stats.Stacks()
+	} else {
 		pwg.Wait()
 	}
 	return res, hung, stacks, nil
@@ -645,7 +676,7 @@ func TestC11(t *testing.T) {
 			}
 		}
 		if hung {
-			fail("C11:deadlock:"+pr.Ctor, map[string]interface{}{"program": pr, "stacks": stacks}, "%s over %s: worker goroutines still running after 20 s although every call is bounded by 3 ms deadlines (deadlock); goroutine dump saved in the replay file", pr.Ctor, pr.Tr)
+			fail("C11:deadlock:"+pr.Ctor, map[string]interface{}{"program": pr, "stacks": stacks}, "%s over %s: worker goroutines (or the final Close) still running after 20 s although every call is bounded by 3 ms deadlines (deadlock); goroutine dump saved in the replay file", pr.Ctor, pr.Tr)
 		}
 		if res.panicked != "" {
 			fail("C11:panic:"+pr.Ctor, pr, "%s over %s: a public API call panicked: %s", pr.Ctor, pr.Tr, res.panicked)
@@ -671,6 +702,9 @@ func TestC11(t *testing.T) {
 		}
 		stats.Eval()
 		stats.Class("ctor:" + pr.Ctor)
+		if pr.Silent {
+			stats.Class("silent_peer_connected")
+		}
 		mut := false
 		var canon bytes.Buffer
 		for _, w := range pr.Workers {
